@@ -166,7 +166,7 @@ fn stbl_video_body<const N: usize, const MAX: usize>(has_b: bool) {
 }
 //@ prop=C02 tier=thorough cost=120 fns="muxer::mp4::build_stbl_box,build_stsd_box,build_vp09_box,build_stts_box,build_stsc_box,build_stsz_box,build_stco_box,build_stss_box" bound="video stbl, 2 samples (all key), symbolic sizes>0 / chunk offsets, durations 1000,2000, no reordering" unwind=40 stubs="fmt::format" timeout=900 mem=18
 h!(c02_stbl_video_2, 40, { stbl_video_body::<2, 262>(false) });
-//@ prop=C02,C09 tier=quick cost=120 fns="muxer::mp4::build_stbl_box,build_ctts_box" bound="video stbl, 2 samples with composition offsets 10,20 (ctts present)" unwind=40 stubs="fmt::format" timeout=900 mem=22
+//@ prop=C02,C09 tier_C09=thorough tier=quick cost=120 fns="muxer::mp4::build_stbl_box,build_ctts_box" bound="video stbl, 2 samples with composition offsets 10,20 (ctts present)" unwind=40 stubs="fmt::format" timeout=900 mem=18
 h!(c02_stbl_video_2_ctts, 40, { stbl_video_body::<2, 294>(true) });
 //@ prop=C02 tier=thorough cost=60 fns="muxer::mp4::build_stbl_box" bound="video stbl, 0 samples" unwind=40 stubs="fmt::format" mem=16
 h!(c02_stbl_video_0, 40, { stbl_video_body::<0, 194>(false) });
@@ -200,7 +200,7 @@ h!(c02_stbl_audio_opus_1, 40, { stbl_audio_body::<1, 175>(AudioCodec::Opus, 55) 
 h!(c02_stbl_audio_aac_0, 40, { stbl_audio_body::<0, 159>(AudioCodec::Aac(muxide::api::AacProfile::Lc), 75) });
 
 // ---- trak / mdia / minf hierarchy -----------------------------------------------------------
-//@ prop=C02,C09 tier=quick cost=200 fns="muxer::mp4::build_trak_box,build_mdia_box,build_minf_box,build_stbl_box,build_tkhd_box,build_mdhd_box_with_timescale_and_duration,build_hdlr_box,build_vmhd_box,build_dinf_box" bound="video trak with 1 sample (symbolic size/duration/offset), language None" unwind=40 stubs="fmt::format" timeout=900 mem=22
+//@ prop=C02,C09 tier_C09=thorough tier=quick cost=200 fns="muxer::mp4::build_trak_box,build_mdia_box,build_minf_box,build_stbl_box,build_tkhd_box,build_mdhd_box_with_timescale_and_duration,build_hdlr_box,build_vmhd_box,build_dinf_box" bound="video trak with 1 sample (symbolic size/duration/offset), language None" unwind=40 stubs="fmt::format" timeout=900 mem=18
 h!(c02_trak_video_1, 40, {
     let (sz, du, of): (u32, u32, u32) = (kani::any(), kani::any(), kani::any());
     kani::assume(sz > 0);
@@ -215,7 +215,7 @@ h!(c02_trak_video_1, 40, {
     assert!(be32(&v, md[0] + 24) == du, "mdhd duration = sum of sample durations");
     core::mem::forget(t);
 });
-//@ prop=C02,C09 tier=thorough tier_C09=quick cost=200 fns="muxer::mp4::build_audio_trak_box,build_audio_mdia_box,build_audio_minf_box,build_audio_stbl_box,build_audio_tkhd_box,build_sound_hdlr_box,build_smhd_box" bound="Opus trak with 1 sample (symbolic size/duration/offset/composition offset/reordering flag)" unwind=40 stubs="fmt::format" timeout=900 mem=22
+//@ prop=C02,C09 tier=thorough tier_C09=quick cost=200 fns="muxer::mp4::build_audio_trak_box,build_audio_mdia_box,build_audio_minf_box,build_audio_stbl_box,build_audio_tkhd_box,build_sound_hdlr_box,build_smhd_box" bound="Opus trak with 1 sample (symbolic size/duration/offset/composition offset/reordering flag)" unwind=40 stubs="fmt::format" timeout=900 mem=20
 h!(c02_trak_audio_1, 40, {
     let (sz, du, of): (u32, u32, u32) = (kani::any(), kani::any(), kani::any());
     kani::assume(sz > 0);
@@ -234,7 +234,7 @@ h!(c02_trak_audio_1, 40, {
 });
 
 // ---- whole moov (real builder), smallest shapes ---------------------------------------------
-//@ prop=C02 tier=quick cost=400 fns="muxer::mp4::build_moov_box,build_trak_box,build_mvhd_payload" bound="moov, video-only, 1 sample, no metadata" unwind=40 stubs="fmt::format" timeout=1500 mem=18
+//@ prop=C02 tier=thorough cost=400 fns="muxer::mp4::build_moov_box,build_trak_box,build_mvhd_payload" bound="moov, video-only, 1 sample, no metadata" unwind=40 stubs="fmt::format" timeout=1500 mem=18
 h!(c02_moov_v1, 40, {
     let (sz, du, of): (u32, u32, u32) = (kani::any(), kani::any(), kani::any());
     kani::assume(sz > 0);
